@@ -382,6 +382,7 @@ use crate::waspec::*;''')
         FRAME],
         loops={0: f'''invariant
     0 <= {J} <= {D}.len(), {D}.len() == self.abbrevs@.len(), code == {J},
+    self.abbrevs@.len() == self.abbrevs.len(), // (a Vec has at most usize::MAX elements: `code + 1` does not overflow)
     wrote_ext({W0}, {WC}, abbrev_table_decls_ops({D}, {J} as int)), // [C11:abbrev-table-codes]
     {WC}.len == {W0}.len + abbrev_table_decls_size({D}, {J} as int), // [C11:abbrev-table-len]
     grew({W0}, {WC}), // [C11:w-frame]'''})
